@@ -399,12 +399,15 @@ def check_agreement(pid, r, faulty, skip=()):
             ab_got_rp_first = _rp_before_abort(r, ab)
             if rel_wrote_rp and not ab_got_rp_first:
                 continue
+            # how the side that says "released" got there: it never wrote an A-RELEASE-RP (the abort / closed
+            # connection overtook its answer), or it did and the other side aborted although it had received it
+            pair += "/released-side-" + ("wrote-rp" if rel_wrote_rp else "never-wrote-rp")
         if {a, b} == {"rejected", "aborted"}:
             # requestor gave up (timeout/abort) before the rejection reached it
             rj_seen = any(h["pdu"] == "A_ASSOCIATE_RJ" for h in r.evts(req, "EVT_PDU_RECV"))
             if b == "rejected" and a == "aborted" and not rj_seen:
                 continue
-        out.append(C.v("agreement", "%s/outcome-mismatch/req-%s/acc-%s" % (pid, a, b), "conn %d: requestor %s=%s acceptor %s=%s" % (cid, req, r.final[req], acc, r.final[acc])))
+        out.append(C.v("agreement", "%s/outcome-mismatch/req-%s/acc-%s%s" % (pid, a, b, pair[len("%s-%s" % (a, b)):]), "conn %d: requestor %s=%s acceptor %s=%s" % (cid, req, r.final[req], acc, r.final[acc])))
     return out
 
 
@@ -516,6 +519,9 @@ def check_history(pid, r, strict_pdus=True, judge_recv=True):
             limit_names = ("EVT_DATA_SENT", "EVT_DATA_RECV", "EVT_PDU_SENT", "EVT_PDU_RECV", "EVT_ESTABLISHED", "EVT_ACCEPTED",
                            "EVT_RELEASED", "EVT_DIMSE_SENT", "EVT_DIMSE_RECV", "EVT_CONN_CLOSE")
             early = [n for n in names[:opens[0]] if n in limit_names]
+            if role == "acc":
+                # an acceptor association exists only because a connection was accepted: nothing can precede it
+                early = list(names[:opens[0]])
             if early:
                 out.append(C.v("conn-order", "%s/before-open/%s/%s" % (pid, role, early[0]), "%s: %s before EVT_CONN_OPEN" % (lab, early)))
             if len(opens) > 1:
@@ -572,6 +578,19 @@ def check_history(pid, r, strict_pdus=True, judge_recv=True):
                 out.append(C.v("pdu-recv", "%s/data-recv-mismatch/%s" % (pid, role), "%s: EVT_DATA_RECV payloads are not a prefix of the PDUs the peer wrote" % lab))
             if len(recv_evt) > len(peer_bytes):
                 out.append(C.v("pdu-recv", "%s/pdu-recv-extra/%s" % (pid, role), "%s: %d EVT_PDU_RECV but peer wrote %d PDUs" % (lab, len(recv_evt), len(peer_bytes))))
+            # every received PDU the state machine acts on was announced by EVT_PDU_RECV first: the i-th transition for
+            # "<type> PDU received" needs at least i EVT_PDU_RECV notifications of that type before it
+            seen = {}
+            acted = {}
+            for h in ev:
+                if h["evt"] == "EVT_PDU_RECV":
+                    seen[h["pdu"]] = seen.get(h["pdu"], 0) + 1
+                elif h["evt"] == "EVT_FSM_TRANSITION" and h["fsm_event"] in _EVT_PDU:
+                    t = _EVT_PDU[h["fsm_event"]]
+                    acted[t] = acted.get(t, 0) + 1
+                    if acted[t] > seen.get(t, 0):
+                        out.append(C.v("pdu-recv", "%s/pdu-recv-missing/%s/%s" % (pid, role, t), "%s: the provider acted on %s (%s in %s) without a preceding EVT_PDU_RECV for it" % (lab, t, h["fsm_event"], h["state"])))
+                        break
     return out
 
 
@@ -593,6 +612,8 @@ def check_wire_conformance(pid, r):
     return out
 
 
+_EVT_PDU = {"Evt3": "A_ASSOCIATE_AC", "Evt4": "A_ASSOCIATE_RJ", "Evt6": "A_ASSOCIATE_RQ", "Evt10": "P_DATA_TF",
+            "Evt12": "A_RELEASE_RQ", "Evt13": "A_RELEASE_RP", "Evt16": "A_ABORT_RQ"}
 _PDU_CLS = {"A_ASSOCIATE_RQ": 1, "A_ASSOCIATE_AC": 2, "A_ASSOCIATE_RJ": 3, "P_DATA_TF": 4,
             "A_RELEASE_RQ": 5, "A_RELEASE_RP": 6, "A_ABORT_RQ": 7}
 
